@@ -125,4 +125,37 @@ CHECKS = {
         "real": MESH_REAL + ["pkg/netceptor firewall_rules.go"], "stub": MESH_STUB,
         "assumptions": ["the reference evaluator uses Go's regexp for the pattern language itself; full match means ^(?:p)$"],
     },
+    "C16": {
+        "level": "exploration",
+        "level_text": "seeded cases on 2-5 node meshes: datagrams and stream dials to services that are unbound, bound, or closed at a drawn "
+                      "offset (1 us - 300 ms) before/after the packet's arrival, with 1-8 unrelated sockets on the sender and a watcher socket "
+                      "on every other node; the notice must arrive exactly once, on exactly the sending socket, echoing the packet; dials must "
+                      "be abandoned by the notice; policy drops must be silent",
+        "level_note": "sampling; arrival instants are computed from the simulated link latencies (unique to the nanosecond), so 'closed before' "
+                      "and 'closed after' are exact; the window inside handleMessageData between lookup and delivery is covered under C17",
+        "quick": {"runs": 320, "per_proc": 20},
+        "thorough": {"runs": 20000, "per_proc": 50},
+        "hang_is_violation": True,
+        "proc_timeout": 240,
+        "rule": "one run = one topology and 6-40 cases of 8 kinds; distinct_nontrivial counts distinct (nodes, edges, case-kind set) classes",
+        "real": MESH_REAL + ["quic-go (stream dials)", "pkg/netceptor conn.go DialContext/Listen"], "stub": MESH_STUB,
+        "assumptions": ["QUIC packet counts are not bit-reproducible (random connection IDs): replay is schedule-exact, packet-count best effort"],
+        "selftest": False,
+    },
+    "C18": {
+        "level": "exploration",
+        "level_text": "seeded open/close histories of advertised datagram and stream listeners on 3-6 node cyclic meshes with per-link delays of "
+                      "1-400 ms (an advertisement and its withdrawal race over different paths), late joiners and node deaths; monitors sampled "
+                      "every 150 ms: listed time never decreases, nothing at or before a learned withdrawal is listed; after settling: listing "
+                      "== open advertised services on reachable live nodes; message budget and inter-round quiescence bound the flooding",
+        "level_note": "sampling; in-order links; one known finding (F12: nothing expires the advertisements of a dead or cut-off node)",
+        "quick": {"runs": 480, "per_proc": 30},
+        "thorough": {"runs": 40000, "per_proc": 100},
+        "hang_is_violation": True,
+        "proc_timeout": 300,
+        "rule": "one run = one mesh, 3-30 open/close events (bursts of 1 ms to gaps of 20 s), optional late joiner, 12% of runs kill a node; "
+                "distinct_nontrivial counts distinct (nodes, links, events, open services at the end, period, late join) classes",
+        "real": MESH_REAL + ["quic-go listeners for advertised stream services"], "stub": MESH_STUB,
+        "assumptions": ["settle = one advertisement period + 9 s"],
+    },
 }
